@@ -48,6 +48,9 @@ var coarseSites = map[string]bool{
 	"fb.put.send": true, "ring.put.woken": true,
 }
 
+// coarseSitesExtra lets a scenario park additional sites (e.g. the pool's check-then-wait window).
+var coarseSitesExtra atomic.Pointer[map[string]bool]
+
 // fineSites is enabled by Engine B scenarios.
 var fineSites atomic.Bool
 
@@ -72,7 +75,8 @@ func installHooks() {
 			return
 		}
 		if !coarseSites[site] {
-			if !fineSites.Load() {
+			extra := coarseSitesExtra.Load()
+			if !fineSites.Load() && (extra == nil || !(*extra)[site]) {
 				return
 			}
 		} else if (site == "fb.put.send" || site == "ring.put.woken") && len(cmd) == 1 && cmd[0] == "PING" && !fineSites.Load() {
